@@ -83,6 +83,7 @@ type site struct {
 	summary        string
 	detail         string
 	line           int
+	sorts          []sortFact // summary appendSorted: what each sort of a collected slice compares
 }
 
 type write struct {
@@ -374,7 +375,7 @@ func sortedAfter(fnBody *ast.BlockStmt, after token.Pos, target string) bool {
 	return found
 }
 
-func summarise(info *types.Info, rs *ast.RangeStmt, fnBody *ast.BlockStmt) (string, string) {
+func summarise(info *types.Info, rs *ast.RangeStmt, fnBody *ast.BlockStmt) (string, string, []string) {
 	fx := &bodyFx{appendTargets: map[string]bool{}, calls: map[string]bool{}}
 	defined := map[string]bool{}
 	if rs.Tok == token.DEFINE {
@@ -393,15 +394,15 @@ func summarise(info *types.Info, rs *ast.RangeStmt, fnBody *ast.BlockStmt) (stri
 	detail := fmt.Sprintf("mapWrite=%d append=%d accum=%d concat=%d other=%d exits=%d calls=%s", fx.mapWrite, fx.appendTo, fx.accum, fx.concat, fx.other, fx.exits, strings.Join(calls, ","))
 	switch {
 	case fx.exits > 0:
-		return "exitsEarly", detail
+		return "exitsEarly", detail, nil
 	case fx.concat > 0:
-		return "concat", detail
+		return "concat", detail, nil
 	case fx.other > 0:
-		return "other", detail
+		return "other", detail, nil
 	case fx.mapWrite+fx.appendTo+fx.accum == 0:
-		return "empty", detail
+		return "empty", detail, nil
 	case fx.appendTo == 0 && fx.accum == 0:
-		return "writesMap", detail
+		return "writesMap", detail, nil
 	case fx.mapWrite == 0 && fx.accum == 0:
 		var ts []string
 		for t := range fx.appendTargets {
@@ -410,14 +411,14 @@ func summarise(info *types.Info, rs *ast.RangeStmt, fnBody *ast.BlockStmt) (stri
 		sort.Strings(ts)
 		for _, t := range ts {
 			if !sortedAfter(fnBody, rs.End(), t) {
-				return "appendUnsorted", detail
+				return "appendUnsorted", detail, nil
 			}
 		}
-		return "appendSorted", detail
+		return "appendSorted", detail, ts
 	case fx.mapWrite == 0 && fx.appendTo == 0:
-		return "accumulate", detail
+		return "accumulate", detail, nil
 	}
-	return "other", detail
+	return "other", detail, nil
 }
 
 // ---------------------------------------------------------------- main
@@ -666,6 +667,7 @@ func main() {
 	}
 
 	emit(a, sites, vars, writes)
+	emitSorts(a, sites)
 	emitResets(a)
 }
 
@@ -709,8 +711,12 @@ func rangesIn(fset *token.FileSet, info *types.Info, file, fn string, root ast.N
 					if b == nil {
 						b = &ast.BlockStmt{}
 					}
-					sum, det := summarise(info, x, b)
-					res = append(res, site{file: file, fn: fn, expr: types.ExprString(x.X), summary: sum, detail: det, line: fset.Position(x.Pos()).Line})
+					sum, det, targets := summarise(info, x, b)
+					st := site{file: file, fn: fn, expr: types.ExprString(x.X), summary: sum, detail: det, line: fset.Position(x.Pos()).Line}
+					if sum == "appendSorted" {
+						st.sorts = sortFactsFor(fset, info, x, b, targets)
+					}
+					res = append(res, st)
 				}
 			}
 			return true
